@@ -174,7 +174,7 @@ def classify(c):
 # ---------------------------------------------------------------------------
 # Nilsimsa: every byte cut
 def nilsimsa_model(data, target=53):
-    from ref.tlshref import nilsimsa       # model written from the 0.2.4 description
+    from ref.tlsh import nilsimsa       # model written from the 0.2.4 description
     return nilsimsa(data, target)
 
 
